@@ -18,6 +18,8 @@
 #include <Bpp/App/ApplicationTools.h>
 #include <Bpp/Exceptions.h>
 #include <Bpp/Io/BppODiscreteDistributionFormat.h>
+#include <Bpp/Io/BppOParametrizableFormat.h>
+#include <Bpp/Numeric/AbstractParameterAliasable.h>
 #include <Bpp/Io/OutputStream.h>
 #include <Bpp/Numeric/DataTable.h>
 #include <Bpp/Numeric/Parameter.h>
@@ -1215,6 +1217,98 @@ static void modeDist(int argc, char** argv, Rng& rng)
   }
 }
 
+// =============================================================== parameter lists in the description language
+struct PlainPars : public bpp::AbstractParametrizable
+{
+  explicit PlainPars(const std::string& prefix) : bpp::AbstractParametrizable(prefix) {}
+  PlainPars* clone() const override { return new PlainPars(*this); }
+  void add(const std::string& n, double v) { addParameter_(new bpp::Parameter(getNamespace() + n, v)); }
+};
+struct AliasPars : public bpp::AbstractParameterAliasable
+{
+  explicit AliasPars(const std::string& prefix) : bpp::AbstractParameterAliasable(prefix) {}
+  AliasPars* clone() const override { return new AliasPars(*this); }
+  void add(const std::string& n, double v) { addParameter_(new bpp::Parameter(getNamespace() + n, v)); }
+};
+
+static void modeParams(int argc, char** argv, Rng& rng)
+{
+  using namespace bpp;
+  long nrand = argInt(argc, argv, "--rand", 100);
+  for (long i = 0; i < nrand; ++i)
+  {
+    chunk("params", 100);
+    std::string prefix = rng.coin() ? "" : word(rng) + ".";
+    size_t n = i < 8 ? static_cast<size_t>(i) % 7 : rng.below(7);
+    std::vector<std::string> names;
+    std::vector<long long> qs;
+    std::set<std::string> used;
+    while (names.size() < n)
+    {
+      std::string nm = word(rng);
+      if (nm.find('.') != std::string::npos || !used.insert(nm).second) continue;
+      names.push_back(nm);
+      qs.push_back(rng.range(-8000, 8000) * 125000LL); // k/8 on the 10^-6 grid
+    }
+    bool aliasable = rng.coin();
+    bool comma = rng.coin();
+    std::vector<std::string> written;
+    for (const auto& nm : names)
+      if (rng.chance(1, 6)) written.push_back(prefix + nm);
+    std::vector<std::string> writtenBefore(written);
+    Arr expect; // [name, "num", q] or [alias, "alias", target] in the order of the text
+    std::string text;
+    std::map<std::string, std::string> back;
+    Res r;
+    if (!aliasable)
+    {
+      PlainPars p(prefix);
+      for (size_t k = 0; k < n; ++k) p.add(names[k], static_cast<double>(qs[k]) / 1e6);
+      for (size_t k = 0; k < n; ++k)
+        if (std::find(writtenBefore.begin(), writtenBefore.end(), prefix + names[k]) == writtenBefore.end())
+          expect.add(Arr().add(asc(names[k])).add("num").add(qs[k]));
+      r = call([&]() {
+        std::ostringstream* os = new std::ostringstream();
+        StlOutputStream out((std::unique_ptr<std::ostream>(os)));
+        BppOParametrizableFormat f;
+        f.write(p, out, written, comma);
+        text = os->str();
+      });
+    }
+    else
+    {
+      AliasPars p(prefix);
+      for (size_t k = 0; k < n; ++k) p.add(names[k], static_cast<double>(qs[k]) / 1e6);
+      // alias the last parameter to the first one, sometimes
+      // (local aliases only in an empty namespace: with a namespace the library mixes full and short names
+      //  in its alias registry - excluded in DESIGN C03 - and the text would read "ns.alias=name")
+      bool aliased = n >= 2 && prefix.empty() && rng.coin();
+      if (aliased)
+      {
+        p.aliasParameters(names[0], names[n - 1]);
+      }
+      for (size_t k = 0; k < n; ++k)
+      {
+        if (aliased && k == n - 1) continue; // no longer independent
+        if (std::find(writtenBefore.begin(), writtenBefore.end(), prefix + names[k]) != writtenBefore.end()) continue;
+        expect.add(Arr().add(asc(names[k])).add("num").add(qs[k]));
+        if (aliased && k == 0) expect.add(Arr().add(asc(names[n - 1])).add("alias").add(asc(names[0])));
+      }
+      r = call([&]() {
+        std::ostringstream* os = new std::ostringstream();
+        StlOutputStream out((std::unique_ptr<std::ostream>(os)));
+        std::map<std::string, std::string> globalAliases;
+        BppOParametrizableFormat f;
+        f.write(p, out, globalAliases, p.getIndependentParameters().getParameterNames(), written, true, comma);
+        text = os->str();
+      });
+    }
+    // what the option parser makes of the text
+    Res r2 = call([&]() { KeyvalTools::multipleKeyvals(text, back, ",", true); });
+    emit(ev("ParamWrite", r).kv("comma", comma).kv("expect", expect).kv("text", asc(text)).kv("r2", r2.r).kv("back", ascMap(back)));
+  }
+}
+
 // =============================================================== main
 int main(int argc, char** argv)
 {
@@ -1239,6 +1333,7 @@ int main(int argc, char** argv)
   else if (mode == "vars") modeVars(argc, argv, rng);
   else if (mode == "table") modeTable(argc, argv, rng);
   else if (mode == "dist") modeDist(argc, argv, rng);
+  else if (mode == "params") modeParams(argc, argv, rng);
   else
   {
     fprintf(stderr, "unknown mode\n");
